@@ -50,7 +50,7 @@ Prog ==
     [] Plan = "w2x3" ->   \* 2 workers x 3 calls, a background thread with its own runtime
         << Main(SpawnOp(2, <<1>>) \o SpawnOp(3, <<1>>) \o SpawnOp(4, <<>>)),
            CallOps(1, "bump", 1, 2) \o CallOps(1, "keep", 2, 3) \o CallOps(1, "bump", 0, 0) \o DropHOp(1),
-           CallOps(1, "bump2", 0, 1) \o CallOps(1, "ktag", 4, 1) \o CallOps(1, "arith", 1, 1) \o DropHOp(1),
+           CallOps(1, "bump2", 0, 1) \o CallOps(1, "ktag", 4, 1) \o CallOps(1, "wide", 1, 1) \o DropHOp(1),
            BuildOp(2) \o Comp(2, 2, 2, 1, 4) \o GetOp(2) \o CallOps(2, "bump", 1, 1)
              \o DropHOp(2) \o DropPkgOp(2) \o DropRtOp(2) >>
     [] Plan = "comp2" ->  \* two threads compile at the same time, one worker calls
